@@ -257,6 +257,14 @@ def check(part, names, n, mode, cat):
         part.violation("lazy", case, "taking a finite prefix forces the source past its fuel budget (non-termination on an infinite list)",
                        tags, "pulls <= %d" % bound, "more than %d pulls" % budget, size=size)
         return
+    if status.startswith("raises") and KIND[0] == "counting":
+        # on the arithmetic source halving yields non-integers, and e.g. subtracting a rational from a string is a type error of the
+        # element arithmetic, not of laziness: when the same pipeline raises the same way on the finite list, the pipeline is ill-typed
+        # for this source (out of domain)
+        tstatus, _ = run_twin(names, n, mode, cat, max(8, 2 * bound + 8))
+        if tstatus == status:
+            part.skip("ill-typed pipeline for the arithmetic source (raises identically on a finite list)")
+            return
     if status.startswith("raises"):
         part.violation("lazy", case, "taking a finite prefix raises", dict(tags, exc=status), "returns", status + ": " + str(val), size=size)
         return
